@@ -48,8 +48,16 @@ pub trait Read<'de>: private::Sealed {
 
     /// Consuming `n` number of bytes
     fn read_bytes(&mut self, n: usize) -> Result<Vec<u8>, io::Error> {
-        let mut buf = vec![0u8; n];
-        self.read_exact(&mut buf)?;
+        // `n` comes from a length field of untrusted input. Grow the buffer only as the
+        // bytes actually arrive so that a short input cannot request a huge allocation.
+        const CHUNK: usize = 64 * 1024;
+        let mut buf = Vec::with_capacity(n.min(CHUNK));
+        while buf.len() < n {
+            let filled = buf.len();
+            let step = (n - filled).min(CHUNK);
+            buf.resize(filled + step, 0);
+            self.read_exact(&mut buf[filled..])?;
+        }
         Ok(buf)
     }
 
